@@ -75,6 +75,10 @@ class Node(object):
         self.payload = None
 
 
+_DONE = Node()
+_DONE.done = True
+
+
 class Ctx(object):
     def __init__(self, max_decisions=50000, timeout_ms=60000):
         self.solver = _z3.Solver()
@@ -330,11 +334,17 @@ class Ctx(object):
             self.aborted += 1
         else:
             self.paths += 1
-        for n in reversed(self.trail):
+        # finished sub-trees are replaced by one shared sentinel so that the
+        # memory held by the tree is proportional to its frontier
+        child = self.cur
+        for n, side in zip(reversed(self.trail), reversed(self.trail_sides)):
+            if child.done:
+                n.kids[side] = _DONE
             n.done = all((not n.feas[s]) or
                          (s in n.kids and n.kids[s].done) for s in n.feas)
             if not n.done:
                 break
+            child = n
 
     @property
     def exhausted(self):
